@@ -608,6 +608,11 @@ func runC18(r *hk.Run) {
 	for i := 0; i < n; i++ {
 		runProgram(r, genDigest(rng), nil, "digest")
 	}
+	// part E: families of clients built by Clone with registrations interleaved
+	n = r.Scale(270, 4000)
+	for i := 0; i < n; i++ {
+		runClone(r, genCloneOps(rng, i%9))
+	}
 	// part D: a slice over a real loopback origin
 	origin, err := newRealOrigin()
 	if err != nil {
